@@ -483,6 +483,7 @@ type LoopSpec struct {
 	Invariants []Clause
 	Decreases  *Clause
 	Unroll     int
+	Assigns    []AssignSpec // restricted heap footprint of the loop body (checked per iteration)
 }
 
 type AssignSpec struct {
@@ -849,6 +850,14 @@ func (db *ContractDB) parseFile(pkgPath, file, src string) error {
 					return fail(err)
 				}
 				ls.Decreases = &c
+			case "assigns":
+				for _, item := range splitTopLevelCommas(arg) {
+					as, err := parseAssign(strings.TrimSpace(item))
+					if err != nil {
+						return fail(err)
+					}
+					ls.Assigns = append(ls.Assigns, as)
+				}
 			case "unroll":
 				n := 0
 				fmt.Sscanf(arg, "%d", &n)
